@@ -27,7 +27,7 @@ FileOps ==
     \cup [op : {"SetMarker"}, rec : 0..6, which : {"head", "tail"}, to : {"zero", "plus4", "huge"}]
     \cup [op : {"FlipByte"}, pos : {1, 10, 25, 50, 75, 90, 99}, bit : {0, 3, 7}]
 \* systematic family: every integer of the first records of every keyword the models use, perturbed in every way
-KwNames == {"ACTDIMS", "ACTIONX", "COMPDAT", "COMPSEGS", "DATES", "DENSITY", "DIMENS", "DX", "DY", "DZ", "EQLDIMS", "EQLNUM", "EQLOPTS", "EQUIL", "FAULTDIM", "FAULTS", "FLUXNUM", "GCONPROD", "GEFAC", "GRUPTREE", "MULTFLT", "MULTREGT", "NNC", "PERMX", "PERMY", "PERMZ", "PLMIXPAR", "PLYADS", "PLYMAX", "PLYROCK", "PLYSHLOG", "PLYVISC", "PORO", "PVTG", "PVTNUM", "PVTO", "PVTW", "REGDIMS", "ROCKCOMP", "ROCKTAB", "RSVD", "SATNUM", "SGFN", "SGOF", "SOF3", "START", "SWFN", "SWOF", "TABDIMS", "THPRES", "TOPS", "TRACER", "TRACERS", "UDQ", "UDQDIMS", "VFPPDIMS", "VFPPROD", "WCONINJE", "WCONPROD", "WELLDIMS", "WELOPEN", "WELSEGS", "WELSPECS", "WELTARG", "WSEGDIMS", "WTEST"}
+KwNames == {"ACTDIMS", "ACTIONX", "COMPDAT", "COMPSEGS", "DATES", "DENSITY", "DIMENS", "DX", "DY", "DZ", "EQLDIMS", "EQLNUM", "EQLOPTS", "EQUIL", "FAULTDIM", "FAULTS", "FLUXNUM", "GCONPROD", "GEFAC", "GRUPTREE", "MULTFLT", "MULTREGT", "NNC", "PERMX", "PERMY", "PERMZ", "PLMIXPAR", "PLYADS", "PLYMAX", "PLYROCK", "PLYSHLOG", "PLYVISC", "PORO", "PVTG", "PVTNUM", "PVTO", "PVTW", "REGDIMS", "ROCKCOMP", "ROCKTAB", "RPTRST", "RPTSCHED", "RPTSOL", "RSVD", "SATNUM", "SGFN", "SGOF", "SOF3", "START", "SWFN", "SWOF", "TABDIMS", "THPRES", "TOPS", "TRACER", "TRACERS", "UDQ", "UDQDIMS", "VFPPDIMS", "VFPPROD", "WCONINJE", "WCONPROD", "WELLDIMS", "WELOPEN", "WELSEGS", "WELSPECS", "WELTARG", "WSEGDIMS", "WTEST"}
 SweepOps == [op : {"BumpKwInt"}, kw : KwNames, tok : 0..7, how : {"plus1", "minus1", "times10", "zero", "negative", "huge"}]
 VARIABLES kind, script
 vars == <<kind, script>>
